@@ -83,6 +83,7 @@ uint64_t heap_total_allocs();
 // mark/sweep style census: blocks allocated since mark and still live
 uint64_t heap_mark();
 uint64_t heap_live_blocks_since(uint64_t mark);
+void heap_dump_live(uint64_t mark, const char* tag); // debugging aid: prints the live blocks allocated after mark
 
 struct Stats {
   uint64_t episodes, steps, switches, stale_reads, stale_sites, spurious_cas, atomics, plains, fences, races_checked,
